@@ -95,6 +95,12 @@ def replay_shared_underlying(sc):
     return bool(out), "; ".join(out[:2]) if out else "second product reads the identity representation"
 
 
+def replay_butterfly(sc):
+    k1, k2, k3 = [float(x) for x in sc["k"]]
+    v = float(PAY.Butterfly(strike1=k1, strike2=k2, strike3=k3)(float(sc["s"])))
+    return v < -1e-12 * max(1.0, abs(k3)), f"Butterfly({k1}, {k2}, {k3}) at underlying {float(sc['s'])} is worth {v!r}"
+
+
 def replay_asian(sc):
     t = np.array(sc["t"])
     p = np.array(sc["p"])
@@ -125,7 +131,8 @@ def h_static(ctx):
     ctx.prove("C17.call_spread_is_call_combination_and_nonneg", AND(EQ(cs, c(k1) - c(k2)), cs >= 0))
     bf = PAY.Butterfly(strike1=k1, strike2=k2, strike3=k3)(s)
     ctx.prove("C17.butterfly_is_call_combination", EQ(bf, c(k1) - 2 * c(k2) + c(k3)))
-    ctx.prove("C17.butterfly_nonneg_for_equidistant_strikes", IMPLIES(EQ(k2 - k1, k3 - k2), bf >= 0))
+    ctx.prove("C17.butterfly_nonneg", bf >= 0, info={"payoff": "Butterfly"}, regions={"middle_strike_below_the_midpoint": k2 - k1 < k3 - k2},
+              replay=(replay_butterfly, lambda m: {"k": [m.f(k1), m.f(k2), m.f(k3)], "s": m.f(s)}))
     dc = PAY.Digital(strike=k, payoff_type=PT_.CALL)(s)
     dp = PAY.Digital(strike=k, payoff_type=PT_.PUT)(s)
     ctx.prove("C17.digital_call_plus_put_is_one", EQ(dc + dp, 1))
